@@ -116,6 +116,10 @@ def run_unit(template, overlay=None, tag="", tier="quick", keep=True, timeout=60
            "--multiple-errors", "50", "--triggers-mode", "silent", "--num-threads", "2"]
     if rlimit:
         cmd += ["--rlimit", str(rlimit)]
+    if os.environ.get("VERIF_SMT_SEED"):
+        # stability sweeps only (not used by registered commands): a proof that depends on the solver's seed is brittle
+        sd = os.environ["VERIF_SMT_SEED"]
+        cmd += ["--smt-option", "smt.random_seed=" + sd, "--smt-option", "sat.random_seed=" + sd]
     res.cmd = " ".join(cmd)
     env = dict(os.environ)
     env["CARGO_NET_OFFLINE"] = "true"
